@@ -60,10 +60,11 @@ type Ctx struct {
 type State struct {
 	cells map[*Cell]Val
 	heap  map[string]string
+	cost  string // ghost step counter since function entry (mode K)
 }
 
 func (s *State) clone() *State {
-	n := &State{cells: make(map[*Cell]Val, len(s.cells)), heap: make(map[string]string, len(s.heap))}
+	n := &State{cells: make(map[*Cell]Val, len(s.cells)), heap: make(map[string]string, len(s.heap)), cost: s.cost}
 	for k, v := range s.cells {
 		n.cells[k] = v
 	}
@@ -172,8 +173,16 @@ func clipStr(s string, n int) string {
 
 func heapKey(s, f string, k int) string { return fmt.Sprintf("%s.%s.%d", s, f, k) }
 
+// tick adds n steps to the ghost cost counter.
+func (c *Ctx) tick(st *State, n string) {
+	if st.cost == "" {
+		st.cost = "0"
+	}
+	st.cost = c.define("cost", "Int", lAdd(st.cost, n))
+}
+
 func (c *Ctx) initHeap() *State {
-	st := &State{cells: map[*Cell]Val{}, heap: map[string]string{}}
+	st := &State{cells: map[*Cell]Val{}, heap: map[string]string{}, cost: "0"}
 	var snames []string
 	for n := range c.pr.Structs {
 		snames = append(snames, n)
@@ -232,6 +241,8 @@ type Frame struct {
 	safetyTags []string
 	curBlock *ssa.BasicBlock
 	curLoop  *LoopInfo
+	curState *State
+	lastIdx  string
 }
 
 type retInfo struct {
@@ -404,7 +415,7 @@ func (fr *Frame) mergeStates(ins []predIn, hint string) (*State, string) {
 		}
 	}
 	if len(live) == 0 {
-		return &State{cells: map[*Cell]Val{}, heap: map[string]string{}}, "false"
+		return &State{cells: map[*Cell]Val{}, heap: map[string]string{}, cost: "0"}, "false"
 	}
 	if len(live) == 1 {
 		return live[0].st.clone(), live[0].cond
@@ -437,6 +448,16 @@ func (fr *Frame) mergeStates(ins []predIn, hint string) (*State, string) {
 			ts[i] = p.st.heap[key]
 		}
 		out.heap[key] = mergeTerm("(Array Int "+c.heapSort[key]+")", ts)
+	}
+	{
+		ts := make([]string, len(live))
+		for i, p := range live {
+			ts[i] = p.st.cost
+			if ts[i] == "" {
+				ts[i] = "0"
+			}
+		}
+		out.cost = mergeTerm("Int", ts)
 	}
 	for cell, v0 := range live[0].st.cells {
 		all := true
@@ -569,7 +590,9 @@ func (fr *Frame) run(st0 *State, reach0 string) {
 				li := fr.loops[s]
 				if li != nil && li.hstate != nil {
 					cond := sAnd(reach, fr.succCond[b][i])
-					fr.backEdge(li, st, cond)
+					be := st.clone()
+					c.tick(be, "1")
+					fr.backEdge(li, be, cond)
 				}
 			}
 		}
@@ -655,6 +678,8 @@ func (fr *Frame) enterLoop(li *LoopInfo, st *State, reach string) (*State, strin
 			}
 		}
 	}
+	ns.cost = c.declare(c.fresh("hcost"), "Int")
+	c.assume("(<= 0 " + ns.cost + ")")
 	li.hstate = ns
 	li.hreach = reach
 	if li.lc != nil {
@@ -832,6 +857,7 @@ func (c *Ctx) strLit(s string) Val {
 }
 
 func (fr *Frame) execBlock(b *ssa.BasicBlock, st *State, reach string) {
+	fr.curState = st
 	for _, in := range b.Instrs {
 		fr.execInstr(in, st, reach)
 	}
@@ -1422,8 +1448,10 @@ func (fr *Frame) binop(x *ssa.BinOp, reach string) Val {
 	case a.K == KStr || b.K == KStr:
 		switch x.Op {
 		case token.EQL:
+			fr.tickStrCmp(a, b)
 			return mkb(c.define("seq", "Bool", fr.strEq(a, b)))
 		case token.NEQ:
+			fr.tickStrCmp(a, b)
 			return mkb(sNot(c.define("seq", "Bool", fr.strEq(a, b))))
 		case token.ADD:
 			return fr.concat(a, b)
@@ -1514,6 +1542,20 @@ func (fr *Frame) binop(x *ssa.BinOp, reach string) Val {
 	return Val{K: KInt, T: rt, C: []string{c.declare(c.fresh("unk"), "Int")}}
 }
 
+// tickStrCmp: comparing two strings costs at most the shorter length (+1).
+func (fr *Frame) tickStrCmp(a, b Val) {
+	if fr.curState == nil {
+		return
+	}
+	n := "(ite (<= " + a.C[2] + " " + b.C[2] + ") " + a.C[2] + " " + b.C[2] + ")"
+	if a.Lit != nil {
+		n = sNum(int64(len(*a.Lit)))
+	} else if b.Lit != nil {
+		n = sNum(int64(len(*b.Lit)))
+	}
+	fr.c.tick(fr.curState, lAdd(n, "1"))
+}
+
 // strEq builds the equality of two strings.
 func (fr *Frame) strEq(a, b Val) string { return fr.c.strEq(a, b) }
 
@@ -1552,6 +1594,9 @@ func (fr *Frame) concat(a, b Val) Val {
 		return c.strLit(*a.Lit + *b.Lit)
 	}
 	r := fr.freshStr("cat")
+	if fr.curState != nil {
+		c.tick(fr.curState, lAdd(lAdd(a.C[2], b.C[2]), "1"))
+	}
 	c.usedAssumed["string concatenation"] = true
 	c.assume(sEq(r.C[1], "0"))
 	c.assume(sEq(r.C[2], lAdd(a.C[2], b.C[2])))
@@ -1616,6 +1661,9 @@ func (fr *Frame) lookup(x *ssa.Lookup, reach string) Val {
 	key := fr.get(x.Index)
 	if m.K == KMap {
 		c.usedAssumed["map index on a never-written map"] = true
+		if fr.curState != nil {
+			c.tick(fr.curState, lAdd(key.C[2], "1"))
+		}
 		val, ok := c.mapLookup(m.Glob, key)
 		v := Val{K: KInt, T: x.X.Type().Underlying().(*types.Map).Elem(), C: []string{val}, Byte: true}
 		if x.CommaOk {
